@@ -3,6 +3,7 @@ package main
 import (
 	"fmt"
 	"go/token"
+	"go/types"
 	"sort"
 	"strings"
 
@@ -501,4 +502,47 @@ func parseErrorReturned(fn *ssa.Function, parses []ssa.CallInstruction) bool {
 		}
 	}
 	return true
+}
+
+// anyPathReturns: the returns of a method with an ExprType parameter <prm> that can be reached when the argument is AnyType:
+// a comma-ok type test of the parameter for AnyType is taken on its success edge, one for another type on its failure
+// edge, every other branch both ways.
+func anyPathReturns(fn *ssa.Function, prm *ssa.Parameter) []*ssa.Return {
+	if len(fn.Blocks) == 0 {
+		return nil
+	}
+	var out []*ssa.Return
+	seen := map[*ssa.BasicBlock]bool{}
+	stack := []*ssa.BasicBlock{fn.Blocks[0]}
+	for len(stack) > 0 {
+		b := stack[len(stack)-1]
+		stack = stack[:len(stack)-1]
+		if seen[b] {
+			continue
+		}
+		seen[b] = true
+		last := b.Instrs[len(b.Instrs)-1]
+		if ret, ok := last.(*ssa.Return); ok {
+			out = append(out, ret)
+			continue
+		}
+		only := -1
+		if ifi, ok := last.(*ssa.If); ok {
+			if ex, ok := ifi.Cond.(*ssa.Extract); ok && ex.Index == 1 {
+				if ta, ok := ex.Tuple.(*ssa.TypeAssert); ok && ta.CommaOk && ta.X == ssa.Value(prm) {
+					if typeStr(ta.AssertedType) == "AnyType" {
+						only = 0
+					} else if _, isIface := ta.AssertedType.Underlying().(*types.Interface); !isIface {
+						only = 1
+					}
+				}
+			}
+		}
+		for i, s := range b.Succs {
+			if only < 0 || i == only {
+				stack = append(stack, s)
+			}
+		}
+	}
+	return out
 }
